@@ -13,6 +13,8 @@ R-C11.2  every compile re-checks from scratch: `compile` calls `check` first, `c
 R-C11.3  compile-phase mutation of checked objects is guarded against happening twice.
 R-C11.4  context managers that set process-wide state restore it in a `finally`
          (reviewed exceptions listed with their reason).
+R-C11.5  registrations into DEF_STORE are not conditional on what the store (or an engine cache)
+         already holds (c11_store_guards.py, below).
 Not decided: that two runs produce equal HUGRs (needs running the compiler).
 """
 
@@ -267,6 +269,10 @@ def run(ctx: Ctx) -> None:
                       "process-wide state set for the duration of a block is not restored when the block raises: a failed compile changes what "
                       "later compiles see")
     ctx.floor("R-C11.4", "context managers touching ambient state", n_cm, 3)
+
+    # ------------------------------------------------------------ R-C11.5 store registrations independent of store content
+    from . import c11_store_guards
+    c11_store_guards.run(ctx)
 
 
 def _mutable_ctor(v: ast.expr) -> bool:
